@@ -242,6 +242,57 @@ theorem history_once {k : Consts} (hk : constsOk k = true) (t : DevTree) (evs : 
   refine p1.trans ?_
   simp [Loop.all]
 
+/-- **the event-loop run, judge-free and both ways** (clauses 3–8 and 12 without the judge): run
+    the responder state machine over ANY sequence of receptions and clock advances and let `mxCap`
+    more seconds pass.  Then no timer is left, nothing raised, and the log of sent datagrams is — as
+    a multiset — the disjoint union over the receptions of what each one causes (`outsOf`), where a
+    reception that is not an M-SEARCH causes nothing, and an M-SEARCH received at `τ` from `r` causes
+    exactly the (ST, USN) multiset the table prescribes for its target (ST compared as the target
+    demands), every datagram going to `r` at a time in `[τ, τ + MX]`, each realising a table entry
+    whose USN it carries and begins with the described device's UDN, and which the listener model —
+    for every configuration with a description URL the listener accepts — reports as that device.
+    So every datagram in the log has a reception that accounts for it, and every prescribed answer
+    of every M-SEARCH is in the log exactly once; no requester is exempt. -/
+theorem loop_answers_exact {k : Consts} (hk : constsOk k = true) {t : DevTree} (hw : wfTree t = true)
+    (evs : List Ev) :
+    let s := runLoop k t {} (evs ++ [.advance (k.mxCap * 1000)])
+    s.timers = [] ∧ s.raisedAt = [] ∧
+    s.log.Perm ((recvsFrom 0 evs).flatMap fun x => outsOf k t x.1 x.2.1 x.2.2.1 x.2.2.2) ∧
+    ∀ x ∈ recvsFrom 0 evs,
+      (isMSearch x.2.2.1 = false → outsOf k t x.1 x.2.1 x.2.2.1 x.2.2.2 = []) ∧
+      (isMSearch x.2.2.1 = true →
+        ((outsOf k t x.1 x.2.1 x.2.2.1 x.2.2.2).map fun o =>
+            msgKey (expected t k.alwaysRoot (x.2.2.1.st.getD [])).2 o.msg).Perm
+          ((expected t k.alwaysRoot (x.2.2.1.st.getD [])).1.map
+            (expKey (expected t k.alwaysRoot (x.2.2.1.st.getD [])).2)) ∧
+        ∀ o ∈ outsOf k t x.1 x.2.1 x.2.2.1 x.2.2.2,
+          o.dest = x.2.1 ∧ x.1 ≤ o.time ∧ o.time ≤ x.1 + windowMs x.2.2.1.mx ∧
+          ∃ e ∈ (expected t k.alwaysRoot (x.2.2.1.st.getD [])).1,
+            o.msg.usn = e.usn ∧ startsWith o.msg.usn e.dev = true ∧
+            ∀ cfg : Cfg, validLocation cfg.location = true →
+              hearResponse cfg o.msg = ⟨true, e.dev, o.msg.st, cfg.location, 0⟩) := by
+  intro s
+  have kk := ConstsOk.of_bool hk
+  have w := WF.of_wfTree hw
+  obtain ⟨h1, h2, h3⟩ := history_once hk t evs
+  refine ⟨h1, h2, by rw [← outsFrom_eq]; exact h3, ?_⟩
+  rintro ⟨τ, r, req, sel⟩ _
+  refine ⟨fun hn => by simp [outsOf, answer_not_msearch k t τ req sel hn], fun hm => ?_⟩
+  obtain ⟨sends, hans, hmsgs, htime⟩ := answer_spec kk t τ req sel hm
+  simp only [outsOf, hans, Option.getD_some]
+  constructor
+  · have := dispatch_perm w k.alwaysRoot (req.st.getD [])
+    rw [← hmsgs, List.map_map] at this
+    simpa [List.map_map, Function.comp_def] using this
+  · intro o ho
+    obtain ⟨sd, hsd, rfl⟩ := List.mem_map.mp ho
+    obtain ⟨ht1, ht2⟩ := htime sd hsd
+    have hmem : sd.msg ∈ buildResponses t k.alwaysRoot (req.st.getD []) := by
+      rw [← hmsgs]; exact List.mem_map.mpr ⟨sd, hsd, rfl⟩
+    obtain ⟨e, he, heok, husn, hst, _⟩ := response_entry w k.alwaysRoot (req.st.getD []) hmem
+    exact ⟨rfl, ht1, ht2, e, he, husn, by rw [husn]; exact heok.usn_prefix,
+      fun cfg hl => hearResponse_ok heok cfg husn hst hl⟩
+
 /-! ### the announcer -/
 
 /-- **announce cycle**: the `i`-th `ssdp:alive` goes out `i` intervals after the start and is the
@@ -440,6 +491,32 @@ example :
          = some ["uuid:emb::urn:schemas-upnp-org:service:C:2", "uuid:leaf::urn:schemas-upnp-org:service:C:2"])
     ∧ (buildResponses exTree true "nothing".toList).map (fun m => String.ofList m.usn) = ["UUID:Root::upnp:rootdevice"] := by
   refine ⟨by decide +kernel, by decide +kernel, by decide +kernel, by decide +kernel, by decide +kernel⟩
+/-- non-vacuity of `loop_answers_exact`: a history with two searches from ONE requester (the second
+    while the first answer is pending), a datagram that is not an M-SEARCH, and clock advances; the
+    log holds 11 + 1 datagrams, none for the NOTIFY -/
+example :
+    (let evs : List Ev :=
+       [.recv "a".toList (exReq "ssdp:all" (some "3")) (some 17), .advance 50,
+        .recv "a".toList (exReq "urn:schemas-upnp-org:device:leaf:1" (some "1")) none,
+        .recv "z".toList { line := notifyLine, man := none, st := some ssdpAll, mx := none } none, .advance 10]
+     let s := runLoop genConsts exTree {} (evs ++ [.advance (genConsts.mxCap * 1000)])
+     (recvsFrom 0 evs).map (fun x => (x.1, isMSearch x.2.2.1)) = [(0, true), (50, true), (50, false)]
+     ∧ s.log.length = 12 ∧ s.timers.length = 0
+     ∧ (s.log.map fun o => (String.ofList o.dest, o.time)).eraseDups = [("a", 117), ("a", 799)]) := by
+  decide +kernel
+
+/-- the judge REJECTS: take the model's own observation of one `upnp:rootdevice` search and (1) drop
+    the answer, (2) send it twice, (3) send it after the MX window, (4) send it to somebody else,
+    (5) give it the embedded device's UDN in the USN — each is refused; the untouched one is accepted -/
+example :
+    (let t1 : DevTree := .node "uuid:r".toList "urn:x:device:R:1".toList [] []
+     let c := runCase genConsts exCfg "t".toList t1 [⟨0, "a".toList, exReq "upnp:rootdevice" (some "1"), some 0⟩] none
+     let upd (f : ObsMsg → ObsMsg) : CaseObs := { c with responses := c.responses.map f }
+     [ok c, ok { c with responses := [] }, ok { c with responses := c.responses ++ c.responses },
+      ok (upd fun m => { m with time := 1001 }), ok (upd fun m => { m with dest := "b".toList }),
+      ok (upd fun m => { m with usn := "uuid:emb::upnp:rootdevice".toList })]
+      = [true, false, false, false, false, false]) := by
+  decide +kernel
 end Example
 
 end Upnp.C13
